@@ -855,13 +855,18 @@ def asan_stage(run):
         return
     exe = os.path.join(WORK, "asan-target", "x86_64-unknown-linux-gnu", "release", "xtv")
     path = os.path.join(WORK, "trace_C17_asan.ndjson")
-    p = common.sh([exe, "record-chunker", path, "15"], env=env, timeout=2400, cwd=WORK)
-    err = p.stderr.decode("utf-8", "replace")
-    ok = p.returncode == 0 and "AddressSanitizer" not in err and "LeakSanitizer" not in err
-    run.stages.append({"stage": "asan", "what": "record-chunker under AddressSanitizer/LeakSanitizer", "clean": ok, "status": p.returncode})
-    if not ok:
-        run.violation("AddressSanitizer/LeakSanitizer reported a memory fault (or the recorder died, status %s) while driving the YAML binding: %s" % (p.returncode, err[-1200:]),
-                      {"kind": "memfault", "status": p.returncode, "report_tail": err[-3000:]})
+    # run A: everything except the over-reporting readers, with leak detection; run B: everything, leak detection off
+    # (the recorded scanner leak on the panic path is judged by the counting allocator rule of Trace_XtChunker)
+    for args, opts, what in ((["15", "nopanic"], "detect_leaks=1", "all runs without panics, LeakSanitizer on"), (["15"], "detect_leaks=0", "all runs incl. panics, leak detection off")):
+        env2 = dict(env, ASAN_OPTIONS=opts + ":abort_on_error=0")
+        p = common.sh([exe, "record-chunker", path] + args, env=env2, timeout=2400, cwd=WORK)
+        err = p.stderr.decode("utf-8", "replace")
+        ok = p.returncode == 0 and "AddressSanitizer" not in err and "LeakSanitizer" not in err
+        run.stages.append({"stage": "asan", "what": "record-chunker under AddressSanitizer: " + what, "clean": ok, "status": p.returncode})
+        if not ok:
+            run.violation("AddressSanitizer/LeakSanitizer reported a memory fault (or the recorder died, status %s) while driving the YAML binding (%s): %s" % (p.returncode, what, err[-1200:]),
+                          {"kind": "memfault", "status": p.returncode, "report_tail": err[-3000:]})
+            return
 
 
 def c17(run):
@@ -893,7 +898,13 @@ def c17(run):
     cur = path
     n = 0
     while True:
-        r = common.validate_trace("Trace_XtChunker.tla", "Trace_XtChunker.cfg", cur, tag="XtChunker-C17")
+        listed = sorted(k["key"] for k in common.known_findings() if k["property"] == run.pid)
+        r = common.validate_trace("Trace_XtChunker.tla", "Trace_XtChunker.cfg", cur, env={"XT_DEVS": ",".join(listed) or "none"}, tag="XtChunker-C17")
+        for l in r["out"].split("\n"):
+            if l.startswith('<<"DEVIATION"'):
+                hit = next((k for k in common.known_findings() if k["property"] == run.pid and k["key"] == l.split('"')[3]), None)
+                if hit and hit not in run.known_hits:
+                    run.known_hits.append(hit)
         if r["violated"]:
             run.violation("invariant %s of XtChunker violated on a recorded run" % r["violated"], {"kind": "xtchunker-trace", "tlc": r["out"][-2500:]})
             break
